@@ -12,6 +12,8 @@ template <class T> struct Scales;
 template <> struct Scales<float>
 {
     static int k2 () { return 60; }
+    static int k2sub () { return 74; }   // 2^(2*-74) = 2^-148 >= denorm_min = 2^-149
+    static const int* k3sub () { static const int v[2] = {-46, -49}; return v; } // 2^(3k) subnormal, cofactors 2^(2k) normal
     static int k3all () { return 40; }
     static const int* k3 () { static const int v[7] = {-40, -2, -1, 0, 1, 2, 40}; return v; }
     static const int* k4 () { static const int v[5] = {-30, -1, 0, 1, 30}; return v; }
@@ -20,6 +22,8 @@ template <> struct Scales<float>
 template <> struct Scales<double>
 {
     static int k2 () { return 500; }
+    static int k2sub () { return 537; }  // 2^(2*-537) = 2^-1074 = denorm_min
+    static const int* k3sub () { static const int v[2] = {-350, -358}; return v; }
     static int k3all () { return 330; }
     static const int* k3 () { static const int v[7] = {-330, -2, -1, 0, 1, 2, 330}; return v; }
     static const int* k4 () { static const int v[5] = {-250, -1, 0, 1, 250}; return v; }
@@ -72,7 +76,10 @@ template <class T> void run ()
             ex::decode (idx, 7, 4, a, -3);
             Oracle<2> O;
             oracle_base<2> (a, O);
-            for (int k = -K; k <= K; ++k) { int ce[2] = {k, k}; oracle_scale<2> (O, ce); check_forms<T, 2> (O, s); }
+            // negative side continues to Scales<T>::k2sub(): there the determinant d*2^(2k) is SUBNORMAL (still exactly
+            // representable: 2k >= the exponent of denorm_min) and below 1/max, while every cofactor/determinant
+            // quotient is an ordinary number — a reciprocal of the determinant would overflow, the division does not
+            for (int k = -Scales<T>::k2sub (); k <= K; ++k) { int ce[2] = {k, k}; oracle_scale<2> (O, ce); check_forms<T, 2> (O, s); if (k < -K) ++s.det_subnormal; }
             // graded conditioning: one column scaled (cond grows like 2^|k|); the cofactors are the entries
             // themselves and the determinant stays exact, so each quotient is a single rounding
             for (int k = -20; k <= 20; ++k)
@@ -101,7 +108,22 @@ template <class T> void run ()
             for (uint64_t i = lo; i < hi; ++i) { ex::decode (i, 5, 9, a, -2); sweep<T, 3> (a, ks, nk, ks, nk, s); }
             s.flush (tl, "3x3");
         });
-        std::string b = "all 1953125 3x3 matrices over {0,+-1,+-2} x uniform scales 2^k, k in {" + std::to_string (ks[0]) + (th ? ",-2,-1,0,1,2," : ",-1,0,1,") + std::to_string (k7[6]) +
+        // subnormal determinants (see the 2x2 stage): all 19683 {0,+-1} 3x3 x uniform scales k3sub (det 2^(3k) d) and,
+        // for the affine ones, block scale k2sub-4 (2x2 block det 2^(2k) d)
+        ok = vf::parallel_chunks (ex::ipow (3, 9), 1u << 7, [&] (uint64_t lo, uint64_t hi, unsigned) {
+            Stats s;
+            int   a[9];
+            const int kb[1] = {-(Scales<T>::k2sub () - 4)};
+            for (uint64_t i = lo; i < hi; ++i)
+            {
+                ex::decode (i, 3, 9, a, -1);
+                long long before = s.nonsingular;
+                sweep<T, 3> (a, Scales<T>::k3sub (), 2, kb, 1, s);
+                s.det_subnormal += s.nonsingular - before;
+            }
+            s.flush (tl, "3x3");
+        }) && ok;
+        std::string b = "all 19683 {0,+-1} 3x3 x scales with a SUBNORMAL determinant; all 1953125 3x3 matrices over {0,+-1,+-2} x uniform scales 2^k, k in {" + std::to_string (ks[0]) + (th ? ",-2,-1,0,1,2," : ",-1,0,1,") + std::to_string (k7[6]) +
                         "} (and block scales (k,k,0) for the affine ones); eight forms each";
         if (th)
         {
@@ -143,6 +165,22 @@ template <class T> void run ()
                 a[15] = 1;
                 static const int none = 0;
                 sweep<T, 4> (a, &none, 0, kas, 5, s);
+            }
+            s.flush (tl, "4x4");
+        }) && ok;
+        // affine 4x4 whose 3x3 block has a SUBNORMAL determinant (block {0,+-1}^9, translation (1,-1,2), block scales k3sub)
+        ok = vf::parallel_chunks (ex::ipow (3, 9), 1u << 8, [&] (uint64_t lo, uint64_t hi, unsigned) {
+            Stats s;
+            for (uint64_t i = lo; i < hi; ++i)
+            {
+                int blk[9], a[16] = {0};
+                ex::decode (i, 3, 9, blk, -1);
+                for (int r = 0; r < 3; ++r) for (int c = 0; c < 3; ++c) a[r * 4 + c] = blk[r * 3 + c];
+                a[12] = 1; a[13] = -1; a[14] = 2; a[15] = 1;
+                static const int none = 0;
+                long long before = s.nonsingular;
+                sweep<T, 4> (a, &none, 0, Scales<T>::k3sub (), 2, s);
+                s.det_subnormal += s.nonsingular - before;
             }
             s.flush (tl, "4x4");
         }) && ok;
